@@ -1,34 +1,59 @@
-"""Markdown summary of /verif/seeded/*/meta.json and of the last drill run (python -m hv.drill.report)."""
+"""Section 8.4 of DESIGN.md from /verif/seeded/*/meta.json.
+
+  python -m hv.drill.report            print the section
+  python -m hv.drill.report --write    splice it into DESIGN.md (between the 8.4 and 8.5 headings)
+"""
 import json
 import os
 import sys
 
 from .. import env
 
+HEAD = "### 8.4 The seeded changes and which checks catch them"
+NEXT = "### 8.5 Behaviour-preserving changes"
 
-def main():
+
+def section():
     root = os.path.join(env.VERIF, "seeded")
-    print("| seed | breaks | files changed | needs, in order to manifest | confirmed (demo 0→≠0, 152 tests pass) | caught by |")
-    print("|---|---|---|---|---|---|")
+    out = [HEAD, "",
+           "`caught by` lists every check that was run against the change and fired (quick tier unless noted); `also run, silent` lists "
+           "related checks that were run and stayed silent - in every such case the change does not break that check's property (e.g. a "
+           "table row replaced by a cheaper circuit on a non-edge breaks C02 but neither C04 nor C05; a memoised circuit that is re-repaired "
+           "on every call differs from a fresh interpreter's answer (C13) but still prepares the right state (C01)). `-R2` = second round, "
+           "`-R3A/B` = third round (`first contact: no` marks the ones that were missed before the additions of 8.3b). Full details per "
+           "change: `seeded/<name>/meta.json` and `notes.md`.", "",
+           "| change | breaks | needs, in order to manifest | caught by | also run, silent |", "|---|---|---|---|---|"]
+    n = conf = 0
     for name in sorted(os.listdir(root)):
         mp = os.path.join(root, name, "meta.json")
         if not os.path.exists(mp):
             continue
         m = json.load(open(mp))
-        files = ", ".join(sorted({l.split("|")[0].strip().replace("src/htstabilizer/", "") for l in m.get("files_changed", []) if "|" in l}))
-        caught = ", ".join("%s (%s)" % (c.split(":")[0], v.get("tier", "quick")) for c, v in sorted(m.get("checks", {}).items()) if v.get("caught"))
-        missed = ", ".join("%s (%s)" % (c.split(":")[0], v.get("tier", "quick")) for c, v in sorted(m.get("checks", {}).items()) if not v.get("caught"))
-        ts = m.get("test_suite_with_change", {})
-        conf = "yes" if m.get("confirmed") else "NO (%s)" % (ts.get("now_failing_or_missing") or "demo")
-        print("| %s | %s | %s | %s | %s | %s%s |" % (name, m.get("property"), files, m.get("needs_to_manifest", "see notes.md"), conf, caught or "-",
-                                                (" ; not caught by: " + missed) if missed else ""))
-    lr = os.path.join(env.VERIF, "hv", "drill", "last_results.json")
-    if os.path.exists(lr) and "--drill" in sys.argv:
-        print()
-        print("| drill mutant | checks (caught?) |")
-        print("|---|---|")
-        for r in json.load(open(lr)):
-            print("| %s | %s |" % (r["mutant"], ", ".join("%s %s" % (c, "✓" if v["fired"] else "✗") for c, v in r["checks"].items())))
+        n += 1
+        conf += bool(m.get("confirmed"))
+        caught = sorted({c.split(":")[0] + ("" if v.get("tier", "quick") == "quick" else " (thorough)")
+                         for c, v in m["checks"].items() if v.get("caught")})
+        missed = sorted({c.split(":")[0] + (" (quick)" if (c.split(":")[0] + ":thorough") in m["checks"] else "")
+                         for c, v in m["checks"].items() if not v.get("caught") and v.get("tier", "quick") == "quick"})
+        label = name + ("" if m.get("confirmed") else " (not confirmed)")
+        if m.get("caught_on_first_contact") is False:
+            label += " (first contact: no)"
+        out.append("| %s | %s | %s | %s | %s |" % (label, m["property"], m.get("needs_to_manifest", "see notes.md"),
+                                                 ", ".join(caught) or "-", ", ".join(missed) or "-"))
+    out += ["", "%d changes, %d confirmed." % (n, conf), "", ""]
+    return "\n".join(out)
+
+
+def main():
+    sec = section()
+    if "--write" in sys.argv:
+        path = os.path.join(env.VERIF, "DESIGN.md")
+        s = open(path).read()
+        a, b = s.index(HEAD), s.index(NEXT)
+        open(path, "w").write(s[:a] + sec + s[b:])
+        print("DESIGN.md section 8.4 rewritten")
+    else:
+        print(sec)
 
 
 if __name__ == "__main__":
